@@ -103,6 +103,35 @@ def clause3(P, res):
         res.violated(rid, "batch-bodies", f"expected >= 40 batch send/receive bodies touching the caller's container, found {n}")
 
 
+def clause4(P, res):
+    rid = "C02-4"
+    res.rule(rid, "no value is committed to a particular parked receiver before that receiver takes it: on the live control-flow graph (edges contradicting a "
+                  "compile-time bool constant removed) of the mpmc-unbounded core nothing reaches WaiterCell::fulfill / handoff_session. A hand-off binds value i to "
+                  "waiter A and value i+1 to waiter B; when A's receive is cancelled value i is re-queued and B's consumer sees i+1 before i")
+    pre = "fibre::mpmc_v2::unbounded::shared::"
+    sess = [b for b in P.bodies.values() if b.id.startswith(pre) and b.name == "handoff_session"]
+    fulfil = [b for b in P.bodies.values() if b.id.startswith(pre) and b.name == "fulfill"]
+    if not sess and not fulfil:
+        res.holds(rid, "handoff", "no hand-off path exists", where="channels/src/mpmc_v2/unbounded/shared.rs", nontrivial=False)
+        return
+    n = 0
+    for b in P.bodies.values():
+        if not b.id.startswith("fibre::mpmc_v2::unbounded::") or "::tests::" in b.id or b.name == "handoff_session":
+            continue
+        live = b.live_positions()
+        for e in b.calls():
+            if e.method in ("handoff_session", "fulfill") and e.callee_resolved.startswith(pre):
+                n += 1
+                k = f"{b.id}:{e.method}"
+                if e.pos in live:
+                    res.violated(rid, k, f"{b.name} reaches {e.method} at {e.loc} on a live path: items are bound to parked receivers at publish time, so a cancelled receive "
+                                 "re-queues its value behind one that was already handed to another receiver (per-consumer order of one producer is lost)", where=e.loc)
+                else:
+                    res.holds(rid, k, "call is behind a compile-time-false switch (dead)", where=e.loc)
+    if n < 3:
+        res.unclassified(rid, "handoff-sites", f"expected >= 3 call sites of the hand-off session, found {n}: the hand-off code changed shape, re-read it", where="rules/c02.py")
+
+
 def run(P, ctx):
     res = Result("C02")
     res.extra["explanation"] = ("Only three order-relevant shapes: end discipline of the payload queues, reclaimed-before-chain, and order-preserving traversal of batch containers. "
@@ -110,4 +139,5 @@ def run(P, ctx):
     clause1(P, res)
     clause2(P, res)
     clause3(P, res)
+    clause4(P, res)
     return res
